@@ -82,11 +82,22 @@ def run(ctx):
          "extra2": (b"zz", b"")},
         {"h2": b"", "b0": b"", "committed": [(b"", b"")], "session": [(b"q", b"\x00" * 50)], "extra": (b"r", b""), "extra2": (b"s", b"\x00\x00")},
     ]
+    # directed: libraries larger than one stream buffer made of many small records, at different alignments — a block
+    # header that straddles a buffer boundary must be read whole
+    for shift in ((0, 5, 9) if ctx.quick() else range(12)):
+        big = [(b"K%04d" % j, bytes([j % 251]) * (j % 4)) for j in range(1300)]
+        big[0] = (b"K0000" + b"x" * shift, b"")
+        directed.append({"h2": b"", "b0": b"", "committed": big, "session": [(b"tail", b"t" * 3)], "extra": (b"e", b""),
+                         "extra2": (b"f", b"g"), "oracle_only": True})
     sessions = corpus + directed + [gen_session(ctx.rng, ctx.quick()) for _ in range(nsessions)]
 
     requests = []   # (line, expected-impl-output, description)
+    real_requests = requests
     for si, s in enumerate(sessions):
         ctx.check_deadline()
+        # big libraries are judged by the oracle alone: replaying thousands of committed puts per request in the
+        # byte-level model costs quadratic time and adds nothing the small sessions do not cover
+        requests = [] if s.get("oracle_only") else real_requests
         path = work / f"s{si}.ukv"
         if path.exists():
             path.unlink()
@@ -227,6 +238,7 @@ def run(ctx):
                         "cases": "every offset 0..%d opened r / a+put; second crashes" % total})
 
     # ---------- model side ----------
+    requests = real_requests
     outs = ctx.driver([r[0] for r in requests])
     for (line, skip, impl_outs, impl_file, tag), mout in zip(requests, outs):
         parts = mout.split(";")
